@@ -73,7 +73,13 @@ func renderToks(toks []etok, variant int, canonical bool) string {
 			sb.WriteString(t.V)
 			prevOperand = true
 		case "key":
-			sb.WriteString(t.V)
+			// property names are looked up by exact spelling first and ignoring case only as a fallback: with sibling
+			// properties that differ in case only (webhook JSON: "id", "Id", "ID") the spelling is part of the meaning
+			if !canonical && variant >= 3 && variant%2 == 1 {
+				sb.WriteString(strings.ToUpper(t.V))
+			} else {
+				sb.WriteString(t.V)
+			}
 			prevOperand = true
 		case "num":
 			sp := numSpellings[0]
@@ -148,7 +154,7 @@ func c11Contexts() []*types.XObject {
 		}
 		return types.NewXObject(m)
 	}
-	obj := types.NewXObject(map[string]types.XValue{"k": types.NewXNumberFromInt(4), "2": types.NewXText("two"), "__default__": types.NewXNumberFromInt(3)})
+	obj := types.NewXObject(map[string]types.XValue{"k": types.NewXNumberFromInt(4), "K": types.NewXNumberFromInt(40), "2": types.NewXText("two"), "__default__": types.NewXNumberFromInt(3)})
 	arr := types.NewXArray(types.NewXNumberFromInt(1), types.NewXNumberFromInt(2), types.NewXNumberFromInt(3), types.NewXNumberFromInt(4))
 	return []*types.XObject{mk(types.NewXNumberFromInt(3), nil), mk(types.RequireXNumberFromString("2.5"), nil), mk(types.NewXText("ab"), nil), mk(obj, nil), mk(arr, nil)}
 }
